@@ -73,7 +73,8 @@ EXTENDS Integers, Sequences, FiniteSets, TLC
 
 CONSTANT Skip      \* checks of the code left out: subset of CheckNames ({} = pinned code)
 
-CheckNames == {"partsigs", "aggsig", "check_fees", "kernel_verify", "validate", "restore_fee", "restore_amount", "proof"}
+CheckNames == {"partsigs", "aggsig", "check_fees", "kernel_verify", "validate", "restore_fee", "restore_amount", "proof",
+               "late_take"}    \* late_take: the late-lock step leaves late_lock_args in the saved context (.clone() for .take())
 
 \* ======================================================================
 \* 1. ALGEBRA
@@ -171,6 +172,11 @@ ChangeFor(c, amt) ==
   IF c.nch = 0 \/ total = 0 THEN <<>>
   ELSE [i \in 1..c.nch |-> Out(IF i = c.nch THEN (total \div c.nch) + (total % c.nch) ELSE total \div c.nch, "c" \o ToString(i))]
 DealChg(c) == ChangeFor(c, DealAmt(c))
+\* the g-th selection a late lock makes for the same slate: the first one is the deal; a second one (which
+\* only a wallet that forgot it had already selected would make) takes other outputs of the same shape
+SelIns(c, g) == IF g = 1 THEN DealIns(c) ELSE [i \in 1..c.nin |-> In(InVal, "j" \o ToString(g) \o ToString(i))]
+SelChg(c, g) == IF g = 1 THEN DealChg(c)
+                ELSE [i \in DOMAIN DealChg(c) |-> Out(DealChg(c)[i].v, "d" \o ToString(g) \o ToString(i))]
 
 TipH == 10            \* height the finalizing wallet has refreshed to (check_ttl)
 
@@ -208,6 +214,7 @@ InitSend(c) ==
   [ctx |-> [sec |-> At("xF"), nonce |-> At("kF"), isec |-> At("xF"), inonce |-> At("kF"),
             ins |-> IF late THEN <<>> ELSE DealIns(c), outs |-> IF late THEN <<>> ELSE DealChg(c),
             amt |-> DealAmt(c), fee |-> DealFee(c), late |-> late, pidx |-> c.proof, locked |-> ~late,
+            nsel |-> 0, resv |-> IF late THEN <<>> ELSE DealIns(c), nsent |-> IF late THEN 0 ELSE 1,
             entrypp |-> IF c.proof THEN [on |-> TRUE, saddr |-> "aF", raddr |-> "aC"] ELSE NoPP],
    slate |-> [id |-> "s", st |-> "S1", amt |-> DealAmt(c), fee |-> DealFee(c), feat |-> 0, args |-> NoArgs, ttl |-> 0,
               np |-> 2, ver |-> 4, bhv |-> 3, off |-> BZero, parts |-> <<Part(At("xF"), At("kF"), NoSig)>>,
@@ -236,7 +243,7 @@ Receive(s) ==
 IssueInvoice(c) ==
   [ctx |-> [sec |-> At("xF"), nonce |-> At("kF"), isec |-> At("xF"), inonce |-> At("kF"),
             ins |-> <<>>, outs |-> <<Out(DealAmt(c), "r1")>>, amt |-> DealAmt(c), fee |-> -1, late |-> FALSE,
-            pidx |-> FALSE, locked |-> TRUE, entrypp |-> NoPP],
+            pidx |-> FALSE, locked |-> TRUE, nsel |-> 0, resv |-> <<>>, nsent |-> 0, entrypp |-> NoPP],
    slate |-> [id |-> "s", st |-> "I1", amt |-> DealAmt(c), fee |-> 0, feat |-> 0, args |-> NoArgs, ttl |-> 0,
               np |-> 2, ver |-> 4, bhv |-> 3, off |-> BZero, parts |-> <<Part(At("xF"), At("kF"), NoSig)>>,
               hascoms |-> FALSE, coms |-> <<>>, pp |-> NoPP]]
@@ -256,7 +263,7 @@ ProcessInvoice(c, s, own, self) ==
              ELSE BAdd(BSub(BSub(s.off, At("xC")), SumB(ins)), SumB(chg))
       payer == [sec |-> At("xC"), nonce |-> At("kC"), isec |-> At("xC"), inonce |-> At("kC"),
                 ins |-> ins, outs |-> chg, amt |-> s.amt, fee |-> fee, late |-> FALSE, pidx |-> FALSE,
-                locked |-> TRUE, entrypp |-> NoPP]
+                locked |-> TRUE, nsel |-> 0, resv |-> ins, nsent |-> 1, entrypp |-> NoPP]
       merged == [payer EXCEPT !.isec = own.isec, !.inonce = own.inonce, !.fee = own.fee, !.amt = own.amt,
                               !.outs = payer.outs \o own.outs, !.ins = payer.ins \o own.ins] IN
   IF msg = BadMsg THEN Err("features")
@@ -280,13 +287,21 @@ ProcessInvoice(c, s, own, self) ==
 \*      Finalize: Asm(.., "code") with the checks in code order (used by Predict).
 DedupSeq(s) == SelectSeq([i \in DOMAIN s |-> [x |-> s[i], first |-> \A j \in 1..(i - 1) : s[j] # s[i]]], LAMBDA e : e.first)
 Dedup(s) == [i \in DOMAIN DedupSeq(s) |-> DedupSeq(s)[i].x]
+\* the late-lock step of the S2 branch: select (bound: the next selection of the deal's shape), store the
+\* context - WITHOUT late_lock_args (`.take()`) in the pinned code -, then lock_tx_context with the slate at
+\* hand: a new TxSent entry, the selected inputs Locked, the proof info copied from that slate
+LateStep(c, ctx0, r) ==
+  LET g == ctx0.nsel + 1
+      lockok == ~(r.pp.on /\ ~ctx0.pidx) IN      \* "Payment proof derivation index required": nothing committed
+  [ctx0 EXCEPT !.ins = SelIns(c, g), !.outs = SelChg(c, g), !.late = ("late_take" \in Skip), !.nsel = g,
+               !.locked = lockok, !.resv = IF lockok THEN ctx0.resv \o SelIns(c, g) ELSE ctx0.resv,
+               !.nsent = IF lockok THEN ctx0.nsent + 1 ELSE ctx0.nsent,
+               !.entrypp = IF lockok /\ r.pp.on THEN [on |-> TRUE, saddr |-> "aF", raddr |-> r.pp.raddr] ELSE NoPP]
 Asm(c, ctx0, r, mode) ==
   LET ideal == mode = "ideal"
       inv == IF ideal THEN IsInvoice(c) ELSE r.st = "I2"
-      \* late lock: the selection and lock_tx_context happen first (selection bound to the honest deal)
-      ctx == IF ~inv /\ ctx0.late THEN [ctx0 EXCEPT !.ins = DealIns(c), !.outs = DealChg(c), !.late = FALSE, !.locked = TRUE,
-                                                     !.entrypp = IF r.pp.on THEN [on |-> TRUE, saddr |-> "aF", raddr |-> r.pp.raddr] ELSE NoPP]
-             ELSE ctx0
+      \* late lock: the selection and lock_tx_context happen first
+      ctx == IF ~inv /\ ctx0.late THEN LateStep(c, ctx0, r) ELSE ctx0
       off == BAdd(BSub(BSub(r.off, ctx.isec), SumB(ctx.ins)), SumB(ctx.outs))        \* adjust_offset
       amt == IF ~ideal /\ "restore_amount" \in Skip THEN r.amt ELSE ctx.amt          \* repopulate_tx
       fee == IF inv \/ (~ideal /\ "restore_fee" \in Skip) THEN r.fee ELSE ctx.fee    \* update_fee only in the S2 branch
@@ -352,7 +367,7 @@ Finalize(c, ctxs, r) ==
   ELSE IF "validate" \notin Skip /\ ~ConsensusValid(tx) THEN Err("validate")
   ELSE IF ~inv /\ "proof" \notin Skip /\ ProofCheck(a.ctx, a, r) # "ok" THEN Err("proof")
   ELSE IF ~a.ctx.locked THEN Err("notfound")                         \* update_stored_tx: no log entry
-  ELSE [res |-> "ok", why |-> "", tx |-> tx]
+  ELSE [res |-> "ok", why |-> "", tx |-> tx, a |-> a]
 
 \* ======================================================================
 \* 3. TAMPER
@@ -505,7 +520,7 @@ Exchange(c) ==
                                             !.outs = <<Out(7, "r9")>>, !.amt = 7]
                ELSE [sec |-> At("xO"), nonce |-> At("kO"), isec |-> At("xO"), inonce |-> At("kO"),
                      ins |-> <<In(InVal, "i9")>>, outs |-> <<Out(InVal - 7 - Fee(1, 2, 1), "c9")>>, amt |-> 7, fee |-> Fee(1, 2, 1),
-                     late |-> FALSE, pidx |-> FALSE, locked |-> FALSE, entrypp |-> NoPP] IN
+                     late |-> FALSE, pidx |-> FALSE, locked |-> FALSE, nsel |-> 0, resv |-> <<>>, nsent |-> 0, entrypp |-> NoPP] IN
   IF step.res # "ok" THEN [reply |-> FALSE, why |-> step.why]
   ELSE
   LET env == [amt |-> DealAmt(c), fee |-> DealFee(c), fin |-> init.slate.parts[1]]
@@ -517,7 +532,7 @@ Exchange(c) ==
       ctxs == IF "id_other" \in {c.tamper, c.tamper2} THEN [x \in {"s", "o"} |-> IF x = "s" THEN mine ELSE other]
               ELSE [x \in {"s"} |-> mine] IN
   IF ~(can1 /\ can2) THEN [reply |-> FALSE, why |-> "inapplicable"]
-  ELSE [reply |-> TRUE, r |-> r, ctxs |-> ctxs, fin |-> Finalize(c, ctxs, r)]
+  ELSE [reply |-> TRUE, r |-> r, genuine |-> step.slate, ctxs |-> ctxs, fin |-> Finalize(c, ctxs, r)]
 
 \* "exact": the inputs reserved, the change recorded, the amount and the fee agreed at initiation
 Exact(c, tx) ==
@@ -530,6 +545,39 @@ Exact(c, tx) ==
   /\ \A i \in DOMAIN chg : \E j \in DOMAIN outs : Cid(outs[j]) = Cid(chg[i])
   /\ Len(outs) = Len(chg) + Len(rest)
   /\ rest # <<>> /\ SumV(rest) = DealAmt(c)
+
+\* what the finalizing wallet has locked for the slate = what the transaction spends; one live TxSent entry
+\* (sender-side flows: in an invoice the reservation is the counterparty's)
+ReservedExact(c, a) ==
+  IsInvoice(c) \/ (/\ {Cid(InsOf(a.tx.coms)[i]) : i \in DOMAIN InsOf(a.tx.coms)} = {Cid(a.ctx.resv[i]) : i \in DOMAIN a.ctx.resv}
+                    /\ a.ctx.nsent = 1)
+
+\* ---- TWO DELIVERIES: a refused (altered) reply followed by the reply the counterparty really sent.
+\* FirstEffect: what a refused first finalize leaves in the store.  Everything before the late-lock step
+\* (no such context, ttl, state, the early proof check) and every non-late context: nothing.  A late-locked
+\* context: the late-lock step has run - the context now holds the selection and (pinned code) no longer
+\* says "late"; the inputs are Locked under a TxSent entry unless lock_tx_context itself refused.
+\* (This is the known finding C07/ForeignOnlyAdds/finalize; C02 only needs its consequences.)
+FirstEffect(c, ctxs, r) ==
+  IF r.id \notin DOMAIN ctxs \/ (r.ttl # 0 /\ TipH >= r.ttl) \/ r.st # "S2" THEN ctxs
+  ELSE LET ctx0 == ctxs[r.id] IN
+       IF ~ctx0.late THEN ctxs
+       ELSE IF ctx0.pidx /\ ~(r.pp.on /\ r.pp.raddr = "aC") THEN ctxs
+       ELSE [ctxs EXCEPT ![r.id] = LateStep(c, ctx0, r)]
+TwoDelivery(c) ==
+  LET e == Exchange(c) IN
+  IF ~e.reply \/ e.fin.res = "ok" THEN [retried |-> FALSE]
+  ELSE LET ctxs1 == FirstEffect(c, e.ctxs, e.r) IN
+       [retried |-> TRUE, ctxs |-> ctxs1, r |-> e.genuine, fin |-> Finalize(c, ctxs1, e.genuine)]
+Verdict2(c) ==
+  LET t == TwoDelivery(c) IN
+  IF ~t.retried THEN "none"
+  ELSE IF t.r.id \notin DOMAIN t.ctxs THEN "may_fail"
+  ELSE LET a == Asm(c, t.ctxs[t.r.id], t.r, "ideal") IN
+       IF ConsensusValid(a.tx) /\ FeeOk(a.tx) /\ Exact(c, a.tx) THEN "may_fail" ELSE "must_fail"
+Predict2(c) ==
+  LET t == TwoDelivery(c) IN
+  IF ~t.retried THEN [res |-> "none", why |-> ""] ELSE [res |-> t.fin.res, why |-> t.fin.why]
 
 \* The verdict of the ALGEBRA, independent of which checks the code makes and of how it puts the
 \* pieces together: even the most lenient assembly of the finalizer's context with the altered reply is
@@ -555,14 +603,15 @@ ErrClass(why) == CASE why = "expired" -> "err:expired" [] why = "state" -> "err:
 
 \* ---- Layer-P predicates on a finished case, model or observed.
 \* obs: [res, tx: [ins, outs: sequences of [n, v] (v = -1: unknown to the registry), fee, nker, valid, stored_equal, mined, chain_ok],
-\*       deal: [ins, chg, rout: sequences of [n, v]; amt; fee; known: the context existed at initiation], resv: [ins, chg]]
+\*       deal: [ins, chg, rout: sequences of [n, v]; amt; fee; known: the context existed at initiation],
+\*       resv: [ins, chg: what the payer's store holds Locked / Unconfirmed for the slate, nsent: its live TxSent entries]]
 NamesOf(s) == {s[i].n : i \in DOMAIN s}
 ValsOf(s) == ISumSeq([i \in DOMAIN s |-> s[i].v])
 FinalTxBroken(o) ==
   LET tx == o.tx
       d == o.deal
       rest == SelectSeq(tx.outs, LAMBDA x : x.n \notin NamesOf(o.resv.chg)) IN
-  {m \in {"valid", "stored", "balance", "inputs", "change", "amount", "fee", "minfee", "kernel", "chain"} :
+  {m \in {"valid", "stored", "balance", "inputs", "change", "amount", "fee", "minfee", "kernel", "chain", "entries"} :
      CASE m = "valid"   -> ~tx.valid                                        \* the real verifier: sums, signature, range proofs
        [] m = "stored"  -> ~tx.stored_equal                                 \* byte-for-byte the transaction stored for re-posting
        [] m = "balance" -> \/ \E i \in DOMAIN tx.ins : tx.ins[i].v < 0
@@ -579,13 +628,18 @@ FinalTxBroken(o) ==
        [] m = "fee"     -> tx.fee # d.fee
        [] m = "minfee"  -> tx.fee < Fee(Len(tx.ins), Len(tx.outs), tx.nker)
        [] m = "kernel"  -> tx.nker # 1
-       [] m = "chain"   -> ~tx.chain_ok}
+       [] m = "chain"   -> ~tx.chain_ok
+       \* o.resv is read from the payer's store right after finalize: EVERY output Locked under ANY TxSent entry
+       \* of the slate (so "inputs" above also says: nothing else is left Locked for it); exactly one such entry
+       [] m = "entries" -> o.resv.nsent # 1}
 
 \* TamperRefused: a reply the algebra condemns must not produce a transaction
 TamperRefusedBroken(verdict, res) == verdict = "must_fail" /\ res = "ok"
 
-\* StillCancellable: after a failed finalize every pending entry of the slate in the finalizing wallet can be
-\* cancelled and the wallet's balances are what they were before the exchange began
+\* StillCancellable: after a failed finalize (the last delivery of the case) the pending transaction of the slate in
+\* the finalizing wallet can be cancelled - BY SLATE ID where the wallet holds one entry per slate (send, late,
+\* invoice), by log id in the self flows (two entries share the id by design) - nothing stays pending and the
+\* wallet's balances are what they were before the exchange began
 StillCancellableBroken(o) ==
   /\ o.res # "ok"
   /\ \/ \E i \in DOMAIN o.cancel : o.cancel[i] # "ok"
